@@ -460,6 +460,9 @@ class Exec:
             return [(st, st.env[n])]
         if self.spec and n == 'result' and 'result' in st.meta:
             return [(st, st.meta['result'])]
+        if n in getattr(self.c, 'consts', {}) and self.c.consts[n] == 'str':
+            # a module-level text constant (e.g. __version__): some fixed text
+            return [(st, Z.mk_s(z3.String('CONST_' + n)))]
         if n in getattr(self.c, 'consts', {}):
             # module-level sentinel objects named by the contract: distinct opaque values (never numbers)
             return [(st, Val.fn(z3.IntVal(-100 - sorted(self.c.consts).index(n))))]
@@ -467,6 +470,10 @@ class Exec:
             return [(st, Val.cls(z3.IntVal(self.ct.cid(n))))]
         if n in ('inf',):
             return [(st, Z.PINF)]
+        _BUILTIN_FNS = ('str', 'int', 'float', 'bool', 'list', 'dict', 'tuple', 'set', 'len', 'abs', 'repr', 'sorted', 'type')
+        if n in _BUILTIN_FNS:
+            # a builtin passed as a value (map(str, xs)): an opaque callable
+            return [(st, Val.fn(z3.IntVal(-900 - _BUILTIN_FNS.index(n))))]
         raise Unsupported("unbound name " + n, node)
 
     def ev_Tuple(self, node, st):
